@@ -2,7 +2,7 @@
 
 ENTRY = {'parts': [{'scenario': 'scenarios.s_pool', 'chunk': 6, 'frac': 0.75},
                    {'scenario': 'scenarios.s_sem', 'chunk': 40, 'frac': 0.25}],
-         'quick': {'runs': 3000, 'budget': 60}, 'thorough': {'runs': 200000, 'budget': 1200}}
+         'quick': {'runs': 3000, 'budget': 45}, 'thorough': {'runs': 200000, 'budget': 1200}}
 
 TEXT = {'level': '(1) the real LaxBoundedSemaphore on a simulated condition variable under 2-4 actors issuing '
           'hold/try/extra release/grow/shrink/clear: value in [0, bound] at every step outside a resize, '
